@@ -266,3 +266,27 @@ Proof.
   - repeat (apply Forall_cons; [first [exact I | split; vm_compute; reflexivity]|]). apply Forall_nil.
   - vm_compute. eexists. repeat split.
 Qed.
+
+(* chewing_cand_choose_by_index with an index outside the open list - negative, or at least chewing_cand_TotalChoice,
+   any int - after EVERY sequence of C calls: the call returns -1 and the context is the one before except for the
+   key result (Bell): buffer, cursor, choices, the open list and its page, dictionary, options untouched. *)
+From LC Require Import Proofs.CapiChoose.
+Theorem C07_choose_by_index_out_of_range_is_rejected_after_any_C_calls : forall ss d ab t0 ops c i c' rc,
+  ss_good ss -> ss_cursor ss = None -> md_fine d -> Forall cop_fine ops ->
+  crun mf_conv (cx_init d ab ss t0) ops = Ok c -> chewing_cand_CheckDone c = 0%Z ->
+  (i < 0 \/ chewing_cand_TotalChoice c <= i)%Z ->
+  cand_choose mf_conv c i = Ok (c', rc) ->
+  rc = (-1)%Z /\ c' = with_ed c (mkEditor (set_last (sh (cx_ed c)) BBell) (st (cx_ed c))).
+Proof.
+  intros ss d ab t0 ops c i c' rc Hg Hf Hd Hops H Hdone Hi Hch.
+  apply (c_choose_out_of_range mf_conv ss c i c' rc); try assumption.
+  exact (crun_inv mf_conv mf_conv_tiles ss Hg Hf ops (cx_init d ab ss t0) c Hops (cx_init_inv ss d ab t0 Hg Hf Hd) H).
+Qed.
+Print Assumptions C07_choose_by_index_out_of_range_is_rejected_after_any_C_calls.
+
+(* non-vacuity: in the context of the example above (four candidates) index 4 and index -7 are refused *)
+Example C07_c_choose_example :
+  exists c, crun mf_conv (cx_init c07_dict [] ss_empty 0%N) c07_history = Ok c /\ chewing_cand_TotalChoice c = 4%Z /\
+    (exists c', cand_choose mf_conv c 4 = Ok (c', (-1)%Z)) /\ (exists c', cand_choose mf_conv c (-7) = Ok (c', (-1)%Z)) /\
+    (exists c', cand_choose mf_conv c 3 = Ok (c', 0%Z)).
+Proof. eexists. split; [vm_compute; reflexivity|]. vm_compute. repeat split; eexists; reflexivity. Qed.
